@@ -250,6 +250,15 @@ MEMBER_NAMES = ['alpha', 'beta_two', 'gammaRay', 'd4', 'e__f', 'Gee', 'h_i_j', '
 SHAPE_NAMES = ['vec3f', 'point2d', 'a1b', 'x2_y', 'md5Sum', 'u8x_2y', 'fooBar2baz', 'r2D2', 'b__2c', 'Tx9Rx', 'utf8str', 'h264_nal', 'i18n']
 
 
+# the same classes for the C02 streams (declaration names / member names), hand-picked so that no identifier style maps two names of
+# one list to the same name: digit→letter (`vec3d`, `x2y`, `to_base64url`), letter→digit, `__` / `___`, a trailing `_`, single
+# letters, all-capitals words, capitals inside a word
+TYPE_SHAPES = ['vec3d', 'point2d_f', 'md5sum_kind', 'x2y_map', 'i18n_text', 'utf8str', 'h264_nal', 'r2D2', 'URL_req', 'ABCD', 'w', 'K', 'a___b2c',
+               'id_', 'n2k', 'Tx9Rx', 'v2codec_x', 'b__2c', 'HTTP2_frame', 'sha1x_']
+MEMBER_SHAPES = ['x2y', 'to_base64url', 'make_v2codec', 'n2k', 'sha1x', 'i18n', 'a1', 'b_2', 'c__d3e', 'URL', 'ID_x', 'u', 'V', 'w_', 'r2D2b',
+                 'get9th_item', 'utf8_name', 'AB_cd', 'x___y', 'md5Sum']
+
+
 def shape_names(r: random.Random, k: int, avoid=()) -> list[str]:
     """`k` identifiers, distinct up to letter case and underscores (so that no identifier style maps two of them to one name: C15):
     half from `SHAPE_NAMES`, half random words over letters (both cases), digits and `_` that contain a digit (hence outside every
@@ -343,12 +352,13 @@ class ProgGen:
     """Random valid programs inside the closed feature set."""
 
     def __init__(self, r: random.Random, java_compiles=False, base_records=False, max_decls=9, names=None, inline_user_types=False,
-                 inline_p=0.12, user_p=0.35, async_p=0.2, min_methods=0):
+                 inline_p=0.12, user_p=0.35, async_p=0.2, min_methods=0, member_names=None):
         self.r = r
         self.java_compiles = java_compiles      # C07: stay inside what javac accepts (throws only same namespace, …)
         self.base_records = base_records
         self.max_decls = max_decls
         self.names = list(names) if names is not None else SAFE_NAMES
+        self.member_names = list(member_names) if member_names is not None else MEMBER_NAMES   # fields, methods, parameters, items
         # inline function types may mention the user types they can spell without a qualifier (declared in an enclosing namespace)
         self.inline_user_types = inline_user_types
         self.inline_p = inline_p                # probability that a method parameter is an inline function type
@@ -358,7 +368,7 @@ class ProgGen:
         self.used_fn_sigs = set()
 
     def members(self, n):
-        return self.r.sample(MEMBER_NAMES, n)
+        return self.r.sample(self.member_names, n)
 
     def dtype(self, decls, depth=0, kinds=('enum', 'flags', 'record'), allow_opt=True, max_depth=2, ref=ref_of):
         r = self.r
